@@ -6,6 +6,7 @@ import (
 
 	"github.com/crate-crypto/go-ipa/bandersnatch/fr"
 	"github.com/crate-crypto/go-ipa/ipa"
+	"github.com/crate-crypto/go-ipa/zzverif/vsched"
 	"verif.local/engine/core"
 	"verif.local/engine/ref"
 )
@@ -52,6 +53,23 @@ func init() {
 
 func c18Units(ctx *core.Ctx) []core.Unit {
 	var us []core.Unit
+	us = append(us, core.Unit{Name: "weight tables rebuilt under CPU-count overrides", Run: func(ctx *core.Ctx, r *core.Result) {
+		if !vsched.Instrumented {
+			r.Note("seam", "unavailable (fallback flavour)")
+			return
+		}
+		defer setCPU(0)
+		want := core.Fingerprint(conf().PrecomputedWeights)
+		for _, k := range []int{1, 2, 3, 4, 5, 6, 7, 8, 12, 15, 16, 17, 24, 31, 32, 33, 64, 255, 256, 257, 300} {
+			setCPU(k)
+			pw := ipa.NewPrecomputedWeights()
+			r.Evals++
+			r.Nontrivial++
+			if core.Fingerprint(pw) != want {
+				vio(r, "c18.tables", "ipa.NewPrecomputedWeights", fmt.Sprintf("NumCPU/GOMAXPROCS = %d", k), "the same tables as under the default CPU count (checked entry by entry in the next unit)", "different tables")
+			}
+		}
+	}})
 	us = append(us, core.Unit{Name: "precomputed weight tables (512 + 510 entries)", Run: func(ctx *core.Ctx, r *core.Result) {
 		pw := conf().PrecomputedWeights
 		bw := ipa.VerifBarycentricWeights(pw)
